@@ -655,7 +655,10 @@ class MemorizedFunc(Logger):
     def _hash_func(self):
         """Hash a function to key the online cache"""
         func_code_h = hash(getattr(self.func, "__code__", None))
-        return id(self.func), hash(self.func), func_code_h
+        # The function code is checked against the one stored in a given
+        # store: the result of this check cannot be used for another store.
+        location = getattr(self.store_backend, "location", None)
+        return id(self.func), hash(self.func), func_code_h, location
 
     def _write_func_code(self, func_code, first_line):
         """Write the function code and the filename to a file."""
